@@ -579,6 +579,9 @@ def run(repo: Repo, rep: Report, tier: str) -> None:
     memo_rule(repo, rep, "C08.R11")
     meta_call_rule(repo, rep, "C08.R12")
     no_fabrication_rule(repo, rep, "C08.R13")
+    from .c05 import leb128_rule as _leb
+
+    _leb(repo, rep, "C08.R14")
 def residue_rule(repo: Repo, rep: Report, rid: str, cg: CallGraph, clo: set[str], roots: list[str]) -> None:
     """Shared-object attributes written in the closure must be reset before any read on entry (or not written at all)."""
     ea = EffectAnalysis(repo, cg)
